@@ -146,6 +146,12 @@ class TlcResult:
                 t = parse_tla_tuple(line)
                 if t is not None:
                     self.tuples.append(t)
+            m = re.match(r"^<(\w+) line \d+, col \d+ to line \d+, col \d+ of module (\w+)( \([\d ]+\))?>: (\d+):(\d+)", line)
+            if m:
+                k = m.group(1)
+                d, t = int(m.group(4)), int(m.group(5))
+                old = self.coverage.get(k, [0, 0])
+                self.coverage[k] = [old[0] + d, old[1] + t]
             if "Model checking completed. No error has been found." in line:
                 self.ok = True
             if "generated states: " in line and "Simulation" in line:
